@@ -165,6 +165,11 @@ def c02_cells(tier="quick"):
             cells.append((f"selection.{kind}{n}of{k}.{tag}", base(H - 1, mk(), workers=W[:k], selections=[
                 {"id": "s0", "workers": ws, "n": n, "kind": kind}], requirements=[
                 {"task": "t0", "resource": "s0"}, {"task": "t1", "resource": "w0"}])))
+        # a worker listed twice (two teams sharing a member): it is one candidate and counts once
+        for kind, n in (("exact", 2), ("min", 2), ("max", 1), ("exact", 1)):
+            cells.append((f"selection_dup.{kind}{n}.{tag}", base(H - 1, mk(), workers=W[:3], selections=[
+                {"id": "s0", "workers": ["w0", "w1", "w1", "w2"], "n": n, "kind": kind}], requirements=[
+                {"task": "t0", "resource": "s0"}, {"task": "t1", "resource": "w0"}])))
         cells.append((f"two_selections.{tag}", base(H - 1, mk(), workers=W[:2], selections=[
             {"id": "s0", "workers": ["w0", "w1"], "n": 1, "kind": "exact"},
             {"id": "s1", "workers": ["w0", "w1"], "n": 1, "kind": "exact"}], requirements=[
